@@ -7,6 +7,9 @@
 From stdpp Require Import gmap sorting.
 From Copia Require Import Model.Bisync Model.BisyncSteps.
 
+Local Instance side_eq_dec : EqDecision side.
+Proof. solve_decision. Defined.
+
 Section P.
 Context `{Countable K}.
 Context {D : Type} `{EqDecision D}.
@@ -167,10 +170,10 @@ Definition wtrees (w : work) : trees := (wA w, wB w).
 
 (** the only premise: a conflict name differs from the path it is derived from
     (the real name is the path with a non-empty suffix appended) *)
-Lemma action_blocks_apply a b w pa : (pa.2 <> ConfBoth \/ forall p d, cname p d <> p) ->
+Lemma action_blocks_apply a b w pa : (pa.2 <> ConfBoth \/ forall d, cname pa.1 d <> pa.1) ->
   foldl blk_apply (wtrees w) (action_blocks a b w pa) = wtrees (apply a b w pa).
 Proof. intros Hcn. unfold action_blocks, Bisync.apply, wtrees. destruct (wErr w) eqn:He; [reflexivity|].
-  destruct pa as [p act]. destruct act; unfold copy; cbn [foldl blk_apply fst snd].
+  destruct pa as [p act]. cbn [fst snd] in Hcn. destruct act; unfold copy; cbn [foldl blk_apply fst snd].
   - destruct (wA w !! p); reflexivity.
   - destruct (wB w !! p); reflexivity.
   - reflexivity.
@@ -194,14 +197,14 @@ Proof. intros Hcn. unfold action_blocks, Bisync.apply, wtrees. destruct (wErr w)
 Qed.
 
 Lemma plan_blocks_apply_gen a b w pl :
-  Forall (fun pa : K * action => pa.2 <> ConfBoth \/ forall p d, cname p d <> p) pl ->
+  Forall (fun pa : K * action => pa.2 <> ConfBoth \/ forall d, cname pa.1 d <> pa.1) pl ->
   foldl blk_apply (wtrees w) (plan_blocks a b w pl) = wtrees (foldl (apply a b) w pl).
 Proof. intros Hpl. revert w; induction Hpl as [|pa pl Hpa Hpl IH]; intros w; cbn [plan_blocks foldl]; [reflexivity|].
   rewrite foldl_app, action_blocks_apply by exact Hpa. apply IH. Qed.
 
 Lemma plan_blocks_apply a b w pl : (forall p d, cname p d <> p) ->
   foldl blk_apply (wtrees w) (plan_blocks a b w pl) = wtrees (foldl (apply a b) w pl).
-Proof. intros Hcn. apply plan_blocks_apply_gen, Forall_forall. intros pa _. right. exact Hcn. Qed.
+Proof. intros Hcn. apply plan_blocks_apply_gen, Forall_forall. intros pa _. right. intros d. apply Hcn. Qed.
 
 Lemma plan_blocks_apply_nc a b w pl : Forall (fun pa : K * action => pa.2 <> ConfBoth) pl ->
   foldl blk_apply (wtrees w) (plan_blocks a b w pl) = wtrees (foldl (apply a b) w pl).
@@ -822,5 +825,103 @@ Lemma run_never_io_error s :
   forall ae, arch_part s ae = arch_steps ae (wC (wfin s)).
 Proof. rewrite run_exit_eq, run_state_eq. unfold arch_part. rewrite no_io_error. cbn [arch].
   split; [case_decide; discriminate|]. auto. Qed.
+
+
+(** ** with fresh conflict names every cell (side, path) is written at most once *)
+Definition cell_of (b : blk) : side * K :=
+  match b with BCopy sd q _ => (sd, q) | BUnlink sd q => (sd, q) end.
+Definition val (t : trees) (c : side * K) : option content :=
+  match c.1 with SA => t.1 !! c.2 | SB => t.2 !! c.2 end.
+
+Lemma blk_apply_other t b c : c <> cell_of b -> val (blk_apply t b) c = val t c.
+Proof. destruct c as [sd x], b as [[] q cc|[] q], sd; cbn; intros Hne; try reflexivity;
+  first [rewrite lookup_insert_ne by congruence | rewrite lookup_delete_ne by congruence]; reflexivity. Qed.
+
+Lemma foldl_blk_apply_other t bl c : c ∉ cell_of <$> bl -> val (foldl blk_apply t bl) c = val t c.
+Proof. revert t; induction bl as [|b bl IH]; intros t Hc; cbn [foldl]; [reflexivity|].
+  cbn [fmap list_fmap] in Hc. apply not_elem_of_cons in Hc as [Hb Hc].
+  rewrite IH by exact Hc. apply blk_apply_other. exact Hb. Qed.
+
+Lemma write_once t bl m c : NoDup (cell_of <$> bl) ->
+  val (foldl blk_apply t (take m bl)) c = val t c \/
+  val (foldl blk_apply t (take m bl)) c = val (foldl blk_apply t bl) c.
+Proof. intros Hnd. rewrite <- (take_drop m bl), fmap_app in Hnd. apply NoDup_app in Hnd as (_ & Hdis & _).
+  destruct (decide (c ∈ cell_of <$> take m bl)) as [Hin|Hout].
+  - right. rewrite <- (take_drop m bl) at 2. rewrite foldl_app.
+    symmetry. apply foldl_blk_apply_other. exact (Hdis c Hin).
+  - left. apply foldl_blk_apply_other. exact Hout. Qed.
+
+Lemma action_cells a b w p act blk : blk ∈ action_blocks a b w (p, act) ->
+  (cell_of blk).2 = p \/ exists d, (cell_of blk).2 = cname p d.
+Proof. unfold action_blocks. destruct (wErr w); [intros Hin; set_solver|].
+  destruct act; repeat case_match; rewrite ?elem_of_cons, elem_of_nil; intros Hin;
+  destruct_or?; simplify_eq; cbn; eauto. Qed.
+
+Lemma action_cells_NoDup a b w p act : (forall d, cname p d <> p) ->
+  NoDup (cell_of <$> action_blocks a b w (p, act)).
+Proof. intros Hcn. unfold action_blocks. destruct (wErr w); [constructor|].
+  destruct act; repeat case_match; cbn;
+  repeat (apply NoDup_cons; split; [rewrite ?elem_of_cons, elem_of_nil; intros Hin; destruct_or?; simplify_eq;
+                                    eapply Hcn; eauto|]); apply NoDup_nil; exact I. Qed.
+
+Lemma plan_cells a b w pl blk : blk ∈ plan_blocks a b w pl ->
+  exists p, p ∈ pl.*1 /\ ((cell_of blk).2 = p \/ exists d, (cell_of blk).2 = cname p d).
+Proof. revert w; induction pl as [|[p act] pl IH]; intros w; cbn [plan_blocks]; [intros Hin; set_solver|].
+  rewrite elem_of_app. intros [Hin|Hin].
+  - exists p. split; [left|]. exact (action_cells _ _ _ _ _ _ Hin).
+  - destruct (IH _ Hin) as (p' & Hp' & Hc). exists p'. split; [right; exact Hp'|exact Hc]. Qed.
+
+Lemma plan_cells_NoDup a b w pl :
+  NoDup pl.*1 -> (forall p d p', p' ∈ pl.*1 -> cname p d <> p') ->
+  (forall p d p' d', cname p d = cname p' d' -> p = p') ->
+  NoDup (cell_of <$> plan_blocks a b w pl).
+Proof. intros Hnd Hfresh Hinj. revert w Hnd Hfresh; induction pl as [|[p act] pl IH]; intros w Hnd Hfresh;
+  cbn [plan_blocks]; [constructor|].
+  cbn [fmap list_fmap fst] in Hnd, Hfresh. apply NoDup_cons in Hnd as [Hp Hnd].
+  rewrite fmap_app. apply NoDup_app. split; [|split].
+  - apply action_cells_NoDup. intros d. apply Hfresh. left.
+  - intros c Hc1 Hc2. apply elem_of_list_fmap in Hc1 as (b1 & -> & Hb1). apply elem_of_list_fmap in Hc2 as (b2 & Hc & Hb2).
+    apply action_cells in Hb1. apply plan_cells in Hb2 as (p' & Hp' & Hb2). rewrite <- Hc in Hb2.
+    assert (p <> p') by (intros ->; contradiction).
+    destruct Hb1 as [E1|[d1 E1]], Hb2 as [E2|[d2 E2]]; rewrite E1 in E2.
+    + congruence.
+    + symmetry in E2. eapply Hfresh; [left|exact E2].
+    + eapply Hfresh; [right; exact Hp'|exact E2].
+    + apply Hinj in E2. congruence.
+  - apply IH; [exact Hnd|]. intros q d p' Hp'. apply Hfresh. right. exact Hp'. Qed.
+
+(** no path of either tree is a conflict name; a conflict name determines its path *)
+Definition names_fresh (s : state) : Prop :=
+  forall p d, tA s !! cname p d = None /\ tB s !! cname p d = None.
+Definition names_inj : Prop := forall p d p' d', cname p d = cname p' d' -> p = p'.
+
+Lemma plan_paths_not_names s : names_fresh s -> forall p d p', p' ∈ (plan_of s).*1 -> cname p d <> p'.
+Proof. intros Hf p d p' Hin Hc. apply plan_fst_elem in Hin. apply Hin. destruct (Hf p d) as [HA HB].
+  rewrite Hc in HA, HB. unfold Bisync.scan. rewrite !lookup_fmap, HA, HB. reflexivity. Qed.
+
+Lemma crash_cells_old_or_new s ae k x : names_fresh s -> names_inj ->
+  let f := crash s ae k in
+  (fA f !! x = tA s !! x \/ fA f !! x = tA (run_state s) !! x) /\
+  (fB f !! x = tB s !! x \/ fB f !! x = tB (run_state s) !! x).
+Proof. intros Hf Hinj. cbn zeta. pose proof (plan_paths_not_names s Hf) as Hpn.
+  assert (Hnd : NoDup (cell_of <$> data_blocks s)).
+  { apply plan_cells_NoDup; [apply plan_fst_NoDup|exact Hpn|exact Hinj]. }
+  assert (Hfin : foldl blk_apply (tA s, tB s) (data_blocks s) = (wA (wfin s), wB (wfin s))).
+  { apply (plan_blocks_apply_gen _ _ (w0_of s)). apply Forall_forall. intros [p act] Hin. right. cbn [fst].
+    intros d. apply Hpn. apply elem_of_list_fmap. exists (p, act). auto. }
+  rewrite run_state_eq. cbn [tA tB].
+  destruct (crash_shape s ae k) as [(Hk & m & b & j & Hm & Hj & ->)|(Hk & ->)].
+  - destruct (exec_partial_blk (blocks_fs (fs_of s) (take m (data_blocks s))) b j Hj) as (-> & -> & _).
+    destruct (blocks_fs_proj (fs_of s) (take m (data_blocks s))) as (E & _).
+    cbn [fs_of fA fB] in E.
+    pose proof (write_once (tA s, tB s) (data_blocks s) m (SA, x) Hnd) as WA.
+    pose proof (write_once (tA s, tB s) (data_blocks s) m (SB, x) Hnd) as WB.
+    rewrite Hfin, <- E in WA, WB. cbn in WA, WB. auto.
+  - destruct (blocks_fs_proj (fs_of s) (data_blocks s)) as (E & _).
+    cbn [fs_of fA fB] in E. rewrite Hfin in E. injection E as E1 E2.
+    unfold arch_part. destruct (wErr (wfin s)).
+    + rewrite take_nil. cbn [exec_all foldl]. rewrite E1, E2. auto.
+    + destruct (exec_arch_prefix (blocks_fs (fs_of s) (data_blocks s)) ae (wC (wfin s)) (k - length (data_steps s)))
+        as (-> & -> & _). rewrite E1, E2. auto. Qed.
 
 End P.
